@@ -878,6 +878,14 @@ where
                         return None;
                     }
                     Err(e) => {
+                        // A root node that is an alias to an anchor this document does not
+                        // define fails this document only (as the same alias does further down
+                        // in a document): go on with the next one.
+                        if matches!(e.without_snippet(), Error::UnknownAnchor { .. })
+                            && self.src.skip_to_next_document()
+                        {
+                            return Some(Err(e));
+                        }
                         self.finished = true;
                         let _ = self.src.finish();
                         return Some(Err(e));
@@ -1261,6 +1269,14 @@ where
                         return None;
                     }
                     Err(e) => {
+                        // A root node that is an alias to an anchor this document does not
+                        // define fails this document only (as the same alias does further down
+                        // in a document): go on with the next one.
+                        if matches!(e.without_snippet(), Error::UnknownAnchor { .. })
+                            && self.src.skip_to_next_document()
+                        {
+                            return Some(Err(e));
+                        }
                         self.finished = true;
                         let _ = self.src.finish();
                         return Some(Err(e));
@@ -1995,6 +2011,14 @@ where
                         return None;
                     }
                     Err(e) => {
+                        // A root node that is an alias to an anchor this document does not
+                        // define fails this document only (as the same alias does further down
+                        // in a document): go on with the next one.
+                        if matches!(e.without_snippet(), Error::UnknownAnchor { .. })
+                            && self.src.skip_to_next_document()
+                        {
+                            return Some(Err(e));
+                        }
                         self.finished = true;
                         let _ = self.src.finish();
                         return Some(Err(e));
